@@ -249,41 +249,30 @@ theorem C08_reader_error (b : RB) (rest : Bytes) (hinv : Inv b rest) (n : Nat) (
 `ReadN` returns error 7 -/
 example : ((RB.fresh [⟨[1, 2], none⟩, ⟨[3], some (.custom 7)⟩, ⟨[4, 5, 6], none⟩] 0).readN 5).1 = .err (.custom 7) := by decide +kernel
 
-/-- DECODE RETURNS THE READER'S ERROR. One `Decode()` of a fresh decoder over ANY reader and any buffer size: if `ReadN`
-hands the decoder a failure of the reader, at whatever point (header, record header, definition, field value,
-developer field, CRC), `Decode` returns exactly that error — no success, no other error class. -/
+/-- THE LOOP RETURNS THE READER'S ERROR. The documented loop `for dec.Next() { dec.Decode() }` of a fresh decoder over ANY
+reader and any buffer size: if `ReadN` hands the decoder a failure of the reader, at whatever point — file header of
+the first or of a later sequence (where `Next()` reads it), record header, definition, field value, developer field,
+CRC — the loop ends with exactly that error: no success, no silent end, no other error class.
+(Before the `fix:` commit of KF-C08-2 `Next()` swallowed such an error met in the header of a later sequence.) -/
+theorem C08_reader_error_loop (chk : Bool) (fuel : Nat) (s : Sched) (size : Int) (e : RErr)
+    (h : firstReaderErr (decodeLoop chk fuel true []) (RB.fresh s size) = some e) :
+    ∃ o, decodeOver chk fuel s size = .done o ∧ o.status = some (.io e) := by
+  obtain ⟨o, ho, hq⟩ := keeps_run _ (keeps_decodeLoop chk fuel true []) _ e h
+  exact ⟨o, ho, hq (firstReaderErr_isFailure _ _ e h)⟩
+
+/-- one `Decode()` of a fresh decoder (`fuel = 1`) -/
 theorem C08_reader_error_decode (chk : Bool) (s : Sched) (size : Int) (e : RErr)
     (h : firstReaderErr (decodeLoop chk 1 true []) (RB.fresh s size) = some e) :
     ∃ o, runRB (decodeLoop chk 1 true []) (RB.fresh s size) = .done o ∧ o.status = some (.io e) :=
-  keeps_run _ (keeps_decodeOnce chk []) _ e h
+  C08_reader_error_loop chk 1 s size e h
 
-/-- the full statement for the documented loop `for dec.Next() { dec.Decode() }`: a failure of the reader handed to the
-decoder ends the loop with that error. FALSE on the pinned tree (`C08_reader_error_loop_false`, KF-C08-2). -/
-def C08_reader_error_loop_full : Prop :=
-  ∀ (chk : Bool) (fuel : Nat) (s : Sched) (size : Int) (e : RErr),
-    firstReaderErr (decodeLoop chk fuel true []) (RB.fresh s size) = some e →
-    ∃ o, decodeOver chk fuel s size = .done o ∧ o.status = some (.io e)
-
-/-- THE LOOP NEVER LOSES THE ERROR, BUT MAY NOT RETURN IT: a failure of the reader handed to the decoder is either the
-error the loop ends with, or — when `Next()` met it while reading the header of a second or later sequence — the
-loop ends silently (`status = none`) and the error is kept as the decoder's sticky error (`swallowed`). -/
-theorem C08_reader_error_loop_partial (chk : Bool) (fuel : Nat) (s : Sched) (size : Int) (e : RErr)
-    (h : firstReaderErr (decodeLoop chk fuel true []) (RB.fresh s size) = some e) :
-    ∃ o, decodeOver chk fuel s size = .done o ∧
-      (o.status = some (.io e) ∨ (o.status = none ∧ o.swallowed = some (.io e))) :=
-  keeps_run _ (keeps_decodeLoop chk fuel true []) _ e h
-
-/-- the witness of KF-C08-2: a complete one-record sequence, then the reader fails with error 7 instead of end of stream -/
+/-- the former witness of KF-C08-2 (a complete one-record sequence, then the reader fails with error 7 instead of end
+of stream): the hypothesis is met and the loop ends with error 7 -/
 def kf2Sched : Sched := [⟨kfBytes ++ [9], none⟩, ⟨[], some (.custom 7)⟩]
 
-theorem C08_reader_error_loop_false : ¬ C08_reader_error_loop_full := by
-  intro h
-  obtain ⟨o, ho, hs⟩ := h false 3 kf2Sched 0 (.custom 7) (by decide +kernel)
-  have hd : (match decodeOver false 3 kf2Sched 0 with | .done o => o.status | .panic => none) = none := by decide +kernel
-  rw [ho] at hd
-  simp only at hd
-  rw [hd] at hs
-  cases hs
+example : firstReaderErr (decodeLoop false 3 true []) (RB.fresh kf2Sched 0) = some (.custom 7) ∧
+    (match decodeOver false 3 kf2Sched 0 with | .done o => o.status | .panic => none) = some (.io (.custom 7)) := by
+  decide +kernel
 
 /-! ## the raw decoder reads with `io.ReadFull` straight from the reader -/
 
